@@ -2297,6 +2297,386 @@ fn round_dropsend(seed: u64, hb: &Heartbeat, tot: &Mutex<Tot>, prop: &str) {
 }
 
 // ---------------------------------------------------------------------------------------------
+// nest: supervision. A parent actor spawns its child INSIDE its own hooks (on_start, or lazily in a handler), forwards requests
+// to it (handler -> ask -> child), and restarts it on request: ends the child (stop / kill / dropping the only reference),
+// awaits the child's JoinHandle inside the handler, takes the actor state out of the ActorResult and spawns the successor from
+// that state. The parent's on_stop stops the last child and awaits it. Clients may live on a second runtime. Everything the
+// properties promise for one actor must survive this composition: every forwarded request answered with its own value (C03),
+// the state handed from incarnation to incarnation counts every request exactly once (C01, C05), on_stop once per incarnation
+// with the right `killed` (C04, C05), fresh ids (C11), a handle to a finished incarnation is dead and its sends fail with
+// exactly one dead letter each (C11, C13), no deadlock panic (C15: parent -> child is the only edge there ever is).
+// ---------------------------------------------------------------------------------------------
+mod nest {
+    use rsactor::{Actor, ActorRef, ActorResult, ActorWeak, Message};
+    use std::sync::atomic::{AtomicU64, Ordering};
+    use std::sync::{Arc, Mutex};
+    #[derive(Default)]
+    pub struct Shared {
+        pub ids: Mutex<Vec<u64>>,
+        pub stops: Mutex<Vec<(u32, bool)>>, // (incarnation, killed) per on_stop call of a child
+        pub viol: Mutex<Vec<(&'static str, String)>>,
+        pub final_handled: AtomicU64,
+        pub parent_stop: AtomicU64,
+    }
+    pub struct ChildState {
+        pub handled: u64,
+        pub gen: u32,
+        pub sh: Arc<Shared>,
+    }
+    pub struct Child(pub ChildState);
+    impl Actor for Child {
+        type Args = ChildState;
+        type Error = String;
+        async fn on_start(a: ChildState, me: &ActorRef<Self>) -> Result<Self, String> {
+            a.sh.ids.lock().unwrap().push(me.identity().id);
+            Ok(Child(a))
+        }
+        async fn on_stop(&mut self, _: &ActorWeak<Self>, killed: bool) -> Result<(), String> {
+            self.0.sh.stops.lock().unwrap().push((self.0.gen, killed));
+            Ok(())
+        }
+    }
+    pub struct Double(pub u64, pub u64);
+    impl Message<Double> for Child {
+        type Reply = u64;
+        async fn handle(&mut self, d: Double, _: &ActorRef<Self>) -> u64 {
+            self.0.handled += 1;
+            if d.1 > 0 {
+                tokio::time::sleep(std::time::Duration::from_micros(d.1)).await;
+            }
+            2 * d.0
+        }
+    }
+    pub struct Parent {
+        pub child: Option<(ActorRef<Child>, tokio::task::JoinHandle<ActorResult<Child>>)>,
+        pub sh: Arc<Shared>,
+        pub cap: usize,
+    }
+    pub struct PArgs {
+        pub sh: Arc<Shared>,
+        pub cap: usize,
+        pub lazy: bool,
+    }
+    fn spawn_child(st: ChildState, cap: usize) -> (ActorRef<Child>, tokio::task::JoinHandle<ActorResult<Child>>) {
+        if cap == 0 {
+            rsactor::spawn::<Child>(st)
+        } else {
+            rsactor::spawn_with_mailbox_capacity::<Child>(st, cap)
+        }
+    }
+    impl Actor for Parent {
+        type Args = PArgs;
+        type Error = String;
+        async fn on_start(a: PArgs, me: &ActorRef<Self>) -> Result<Self, String> {
+            a.sh.ids.lock().unwrap().push(me.identity().id);
+            let child = if a.lazy { None } else { Some(spawn_child(ChildState { handled: 0, gen: 0, sh: a.sh.clone() }, a.cap)) };
+            Ok(Parent { child, sh: a.sh, cap: a.cap })
+        }
+        async fn on_stop(&mut self, _: &ActorWeak<Self>, _killed: bool) -> Result<(), String> {
+            self.sh.parent_stop.fetch_add(1, Ordering::SeqCst);
+            if let Some((c, jh)) = self.child.take() {
+                let _ = c.stop().await;
+                drop(c);
+                match tokio::time::timeout(std::time::Duration::from_secs(8), jh).await {
+                    Ok(Ok(ActorResult::Completed { actor, killed })) => {
+                        if killed {
+                            self.sh.viol.lock().unwrap().push(("C05.result", "the last child was ended with stop() from its parent's on_stop but its result says killed=true".into()));
+                        }
+                        self.sh.final_handled.store(actor.0.handled, Ordering::SeqCst);
+                    }
+                    Ok(other) => self.sh.viol.lock().unwrap().push(("C05.result", format!("the last child, stopped from its parent's on_stop, ended with {}", short(&other)))),
+                    Err(_) => self.sh.viol.lock().unwrap().push(("C07.resolves", "the last child was stopped from its parent's on_stop but its JoinHandle had not resolved 8 s later".into())),
+                }
+            }
+            Ok(())
+        }
+    }
+    pub fn short(r: &Result<ActorResult<Child>, tokio::task::JoinError>) -> String {
+        match r {
+            Ok(ActorResult::Completed { killed, .. }) => format!("Completed {{ killed: {killed} }}"),
+            Ok(ActorResult::Failed { phase, killed, error, .. }) => format!("Failed {{ phase: {phase:?}, killed: {killed}, error: {error:?} }}"),
+            Err(e) => format!("JoinError({e})"),
+        }
+    }
+    impl Parent {
+        fn ensure(&mut self) -> ActorRef<Child> {
+            if self.child.is_none() {
+                self.child = Some(spawn_child(ChildState { handled: 0, gen: 0, sh: self.sh.clone() }, self.cap));
+            }
+            self.child.as_ref().unwrap().0.clone()
+        }
+    }
+    pub struct Fwd(pub u64, pub u64);
+    impl Message<Fwd> for Parent {
+        type Reply = Result<u64, String>;
+        async fn handle(&mut self, f: Fwd, _: &ActorRef<Self>) -> Result<u64, String> {
+            let c = self.ensure();
+            c.ask(Double(f.0, f.1)).await.map(|v| v + 1).map_err(|e| format!("{e:?}"))
+        }
+    }
+    pub struct GetChild;
+    impl Message<GetChild> for Parent {
+        type Reply = ActorRef<Child>;
+        async fn handle(&mut self, _: GetChild, _: &ActorRef<Self>) -> ActorRef<Child> {
+            self.ensure()
+        }
+    }
+    /// how the current child is ended: 0 stop(), 1 kill(), 2 dropping the parent's (only) strong reference
+    pub struct Restart(pub u8);
+    impl Message<Restart> for Parent {
+        type Reply = Result<u64, String>;
+        async fn handle(&mut self, r: Restart, _: &ActorRef<Self>) -> Result<u64, String> {
+            self.ensure();
+            let (c, jh) = self.child.take().unwrap();
+            match r.0 {
+                0 => c.stop().await.map_err(|e| format!("stop: {e:?}"))?,
+                1 => c.kill().map_err(|e| format!("kill: {e:?}"))?,
+                _ => {}
+            }
+            drop(c);
+            let res = match tokio::time::timeout(std::time::Duration::from_secs(8), jh).await {
+                Ok(r) => r,
+                Err(_) => return Err("child JoinHandle did not resolve within 8 s".into()),
+            };
+            match res {
+                Ok(ActorResult::Completed { actor, killed }) => {
+                    if killed != (r.0 == 1) {
+                        self.sh.viol.lock().unwrap().push(("C05.result", format!("a child ended by {} reports killed={killed}", ["stop()", "kill()", "dropping its only strong reference"][r.0 as usize])));
+                    }
+                    let st = ChildState { handled: actor.0.handled, gen: actor.0.gen + 1, sh: self.sh.clone() };
+                    let (nc, njh) = spawn_child(st, self.cap);
+                    let id = nc.identity().id;
+                    self.child = Some((nc, njh));
+                    Ok(id)
+                }
+                other => Err(format!("child ended with {}", short(&other))),
+            }
+        }
+    }
+}
+
+fn round_nest(seed: u64, hb: &Heartbeat, tot: &Mutex<Tot>, prop: &str) {
+    use nest::*;
+    let mut r = Rng::new(seed);
+    let workers = [0usize, 2, 4][r.below(3) as usize];
+    let mk = |w: usize| if w == 0 { tokio::runtime::Builder::new_current_thread().enable_time().build().unwrap() } else { tokio::runtime::Builder::new_multi_thread().worker_threads(w).enable_time().build().unwrap() };
+    let rt = mk(workers);
+    // the parent (and with it every child) may live on a runtime of its own, driven by its own thread(s)
+    let rt_p = if r.chance(40) { Some(mk(1 + r.below(2) as usize)) } else { None };
+    let cap = [0usize, 1, 2, 33][r.below(4) as usize];
+    let lazy = r.chance(40);
+    let nclients = 1 + r.below(4) as usize;
+    let per = 3 + r.below(12);
+    let nrestarts = 1 + r.below(4);
+    let kinds: Vec<u8> = (0..nrestarts).map(|_| r.below(3) as u8).collect();
+    let hold_old = r.chance(70);
+    let delays: Vec<u64> = (0..nclients).map(|_| [0u64, 0, 50, 300][r.below(4) as usize]).collect();
+    let bucket0 = hb.now_bucket();
+    let sh = Arc::new(Shared::default());
+    let dl0 = UNATTRIBUTED_DEAD_LETTERS.load(Ordering::SeqCst);
+    let mut v: Vec<(&'static str, String)> = vec![];
+    let mut hung = false;
+    let mut oks = 0u64;
+    let mut failed_sends = 0u64;
+    let mut restarts_done = 0u64;
+    let kinds2 = kinds.clone();
+    let sh2 = sh.clone();
+    let outcome = rt.block_on(async {
+        let (p, pjh) = {
+            let _g = rt_p.as_ref().map(|r| r.enter());
+            rsactor::spawn::<Parent>(PArgs { sh: sh2.clone(), cap, lazy })
+        };
+        let mut tasks = vec![];
+        for (k, d) in delays.iter().enumerate() {
+            let (p, d) = (p.clone(), *d);
+            tasks.push(tokio::spawn(async move {
+                let mut ok = 0u64;
+                let mut bad = vec![];
+                for i in 0..per {
+                    let x = (k as u64) * 1000 + i;
+                    match p.ask(Fwd(x, d)).await {
+                        Ok(Ok(val)) if val == 2 * x + 1 => ok += 1,
+                        other => bad.push(format!("Fwd({x}) through the parent returned {other:?} instead of Ok(Ok({}))", 2 * x + 1)),
+                    }
+                    if i % 3 == 2 {
+                        tokio::task::yield_now().await;
+                    }
+                }
+                (ok, bad)
+            }));
+        }
+        // the operator: restarts the child; keeps a handle to the old incarnation when that cannot keep it alive
+        let op = {
+            let p = p.clone();
+            tokio::spawn(async move {
+                let mut bad: Vec<(&'static str, String)> = vec![];
+                let mut failed = 0u64;
+                let mut done = 0u64;
+                for kind in kinds2 {
+                    tokio::time::sleep(Duration::from_micros(200)).await;
+                    let old = match p.ask(GetChild).await {
+                        Ok(c) => c,
+                        Err(e) => {
+                            bad.push(("C03.integrity", format!("GetChild on the live parent returned {e:?}")));
+                            break;
+                        }
+                    };
+                    let old_id = old.identity().id;
+                    let weak = rsactor::ActorRef::downgrade(&old);
+                    // a strong handle in foreign hands would keep a child alive that is to end by losing its last reference
+                    let old = if kind != 2 && hold_old { Some(old) } else { drop(old); None };
+                    match p.ask(Restart(kind)).await {
+                        Ok(Ok(new_id)) => {
+                            done += 1;
+                            if new_id == old_id {
+                                bad.push(("C11.unique", format!("the successor of child #{old_id} was given the same id")));
+                            }
+                            // the parent awaited the old incarnation's JoinHandle before it answered
+                            if weak.upgrade().is_some() && old.is_none() {
+                                bad.push(("C11.upgrade", format!("child #{old_id} has ended (its parent awaited its JoinHandle) and nobody holds a strong reference, yet its weak handle upgrades")));
+                            }
+                            if let Some(o) = &old {
+                                if o.is_alive() {
+                                    bad.push(("C11.alive_false", format!("child #{old_id} has ended (its parent awaited its JoinHandle) yet is_alive() is true on a handle a client kept")));
+                                }
+                                if o.tell(Double(1, 0)).await.is_ok() {
+                                    bad.push(("C11.send_after_end", format!("tell to child #{old_id} after it ended returned Ok")));
+                                } else {
+                                    failed += 1;
+                                }
+                                match o.ask(Double(1, 0)).await {
+                                    Ok(x) => bad.push(("C03.after_end", format!("ask to child #{old_id} after it ended returned Ok({x})"))),
+                                    Err(_) => failed += 1,
+                                }
+                            }
+                        }
+                        Ok(Err(e)) => {
+                            bad.push(("C07.resolves", format!("restarting the child (kind {kind}: {}) failed: {e}", ["stop()", "kill()", "dropping its only strong reference"][kind as usize])));
+                            break;
+                        }
+                        Err(e) => {
+                            bad.push(("C03.integrity", format!("Restart on the live parent returned {e:?}")));
+                            break;
+                        }
+                    }
+                }
+                (bad, failed, done)
+            })
+        };
+        let all = async {
+            let mut ok = 0u64;
+            let mut bad: Vec<(&'static str, String)> = vec![];
+            for t in tasks {
+                match t.await {
+                    Ok((o, b)) => {
+                        ok += o;
+                        bad.extend(b.into_iter().map(|m| ("C03.integrity", m)));
+                    }
+                    Err(e) => bad.push(("C03.integrity", format!("client task died: {e}"))),
+                }
+            }
+            let (b2, failed, done) = op.await.unwrap_or_else(|e| (vec![("C03.integrity", format!("operator task died: {e}"))], 0, 0));
+            bad.extend(b2);
+            let _ = p.stop().await;
+            drop(p);
+            let pres = pjh.await;
+            (ok, bad, failed, done, pres)
+        };
+        tokio::time::timeout(Duration::from_secs(30), all).await
+    });
+    let stalled = hb.max_late_since(bucket0) > STALL_US;
+    match outcome {
+        Ok((ok, bad, failed, done, pres)) => {
+            oks = ok;
+            failed_sends = failed;
+            restarts_done = done;
+            v.extend(bad);
+            match pres {
+                Ok(rsactor::ActorResult::Completed { killed: false, .. }) => {}
+                Ok(rsactor::ActorResult::Completed { killed: true, .. }) => v.push(("C05.result", "the parent was ended with stop() but its result says killed=true".into())),
+                Ok(rsactor::ActorResult::Failed { phase, error, .. }) => v.push(("C05.result", format!("the parent ended as Failed {{ phase: {phase:?}, error: {error:?} }} although none of its hooks failed"))),
+                Err(e) => {
+                    let msg = if e.is_panic() {
+                        let p = e.into_panic();
+                        p.downcast_ref::<String>().cloned().or_else(|| p.downcast_ref::<&str>().map(|s| s.to_string())).unwrap_or_default()
+                    } else {
+                        format!("{e}")
+                    };
+                    v.push((if msg.contains("Deadlock") { "C15.sound" } else { "C05.panic" }, format!("the parent's JoinHandle reports a panic/cancellation ({msg:?}) although no hook of the workload panics (parent -> child is the only ask edge there is)")));
+                }
+            }
+        }
+        Err(_) => hung = true,
+    }
+    if let Some(rp) = rt_p {
+        rp.shutdown_timeout(Duration::from_secs(2));
+    }
+    rt.shutdown_timeout(Duration::from_secs(2));
+    v.extend(sh.viol.lock().unwrap().drain(..));
+    let mut t = tot.lock().unwrap();
+    t.rounds += 1;
+    t.hashes.insert(mix(mix(workers as u64, cap as u64), mix(nclients as u64 * 16 + nrestarts, kinds.iter().fold(lazy as u64, |a, k| a * 3 + *k as u64))));
+    for p in ["C01", "C03", "C04", "C05", "C07", "C11", "C13", "C15"] {
+        *t.nontrivial.entry(p.into()).or_default() += 1;
+    }
+    if hung {
+        if stalled {
+            t.inconclusive.push(format!("[nest] round {seed} did not finish within 30 s on a stalled machine"));
+        } else {
+            v.push(("C03.complete", format!("[nest] clients x{nclients} forwarding through a parent to its child (capacity {cap}, {nrestarts} restarts of kinds {kinds:?}) had not all finished after 30 s")));
+        }
+    } else if v.is_empty() {
+        let total = nclients as u64 * per;
+        *t.obl.entry("C03.integrity").or_default() += total;
+        *t.obl.entry("C01.once").or_default() += total;
+        *t.obl.entry("C05.state").or_default() += 1 + restarts_done;
+        *t.obl.entry("C04.stop_once").or_default() += 1 + restarts_done;
+        *t.obl.entry("C11.unique").or_default() += 2 + restarts_done;
+        *t.obl.entry("C13.one_per_failure").or_default() += failed_sends;
+        if oks != total {
+            v.push(("C03.integrity", format!("{oks} of {total} forwarded requests came back right")));
+        }
+        let fh = sh.final_handled.load(Ordering::SeqCst);
+        // every incarnation was created from the state its predecessor's ActorResult returned
+        if fh != total + 0 && restarts_done == nrestarts {
+            v.push(("C05.state", format!("{total} requests were forwarded to (and answered by) the child across {restarts_done} restarts, each successor being created from the actor state returned in its predecessor's ActorResult, but the last incarnation's state counts {fh} handled")));
+        }
+        let stops = sh.stops.lock().unwrap().clone();
+        let mut per_gen: BTreeMap<u32, u32> = BTreeMap::new();
+        for (g, _) in &stops {
+            *per_gen.entry(*g).or_default() += 1;
+        }
+        let incarnations = 1 + restarts_done as usize;
+        if per_gen.len() != incarnations || per_gen.values().any(|n| *n != 1) {
+            v.push(("C04.stop_once", format!("{incarnations} child incarnations ended gracefully or by kill, on_stop calls per incarnation: {per_gen:?}")));
+        }
+        for (g, k) in &stops {
+            let want = kinds.get(*g as usize).map(|x| *x == 1).unwrap_or(false);
+            if *k != want {
+                v.push(("C04.killed_arg", format!("child incarnation {g} was ended by {} but on_stop got killed={k}", kinds.get(*g as usize).map(|x| ["stop()", "kill()", "dropping its only strong reference"][*x as usize]).unwrap_or("its parent's on_stop (stop())"))));
+            }
+        }
+        if sh.parent_stop.load(Ordering::SeqCst) != 1 {
+            v.push(("C04.stop_once", format!("the parent's on_stop ran {} times", sh.parent_stop.load(Ordering::SeqCst))));
+        }
+        let ids = sh.ids.lock().unwrap().clone();
+        let uniq: BTreeSet<u64> = ids.iter().copied().collect();
+        if uniq.len() != ids.len() || ids.len() != 1 + incarnations {
+            v.push(("C11.unique", format!("parent + {incarnations} child incarnations started, ids seen by their on_start: {ids:?}")));
+        }
+        let dl = UNATTRIBUTED_DEAD_LETTERS.load(Ordering::SeqCst) - dl0;
+        if dl != failed_sends {
+            v.push(("C13.one_per_failure", format!("{failed_sends} sends to ended child incarnations failed (nothing else failed) but {dl} dead letters were recorded")));
+        }
+    }
+    for (c, m) in v {
+        if prop == "all" || c.starts_with(prop) {
+            t.viol.push((c.into(), if m.starts_with("[nest]") { m } else { format!("[nest] {m}") }, seed, "nest".into()));
+        }
+    }
+}
+
+// ---------------------------------------------------------------------------------------------
 // lastslot: several senders on different worker threads go for the last free slot(s) of a mailbox at the same instant with
 // tell_with_timeout, while the actor is parked in a handler for longer than the timeout. Exactly as many as there are free
 // slots succeed at once; the others WAIT (C09) and come back with Timeout at their deadline - not earlier, not with another
@@ -3495,6 +3875,16 @@ pub fn cmd_mt(a: &Args) -> i32 {
                     }
                 }
             }
+            "nest" => {
+                let mut n = 0u64;
+                while tp.elapsed() < per_profile {
+                    n += 1;
+                    round_nest(mix(base, ((pi as u64) << 56) ^ n), &hb, &tot, &prop);
+                    if tot.lock().unwrap().viol.len() > 3 {
+                        break;
+                    }
+                }
+            }
             "lastslot" => {
                 let mut n = 0u64;
                 while tp.elapsed() < per_profile {
@@ -3591,7 +3981,7 @@ pub fn cmd_mt(a: &Args) -> i32 {
     #[cfg(feature = "f_testutils")]
     {
         let d = rsactor::dead_letter_count() - dl0;
-        if !tainted.load(Ordering::Relaxed) && profiles.iter().all(|p| p != "spawnstorm" && p != "tightrace" && p != "starve" && p != "mutualask" && p != "abort" && p != "reentrant" && p != "dropspin" && p != "metricsrace" && p != "undriven" && p != "dlrace" && p != "dropsend" && p != "lastslot" && p != "hookblocking" && p != "bigmsg") {
+        if !tainted.load(Ordering::Relaxed) && profiles.iter().all(|p| p != "spawnstorm" && p != "tightrace" && p != "starve" && p != "mutualask" && p != "abort" && p != "reentrant" && p != "dropspin" && p != "metricsrace" && p != "undriven" && p != "dlrace" && p != "dropsend" && p != "lastslot" && p != "hookblocking" && p != "bigmsg" && p != "nest") {
             *t.obl.entry("C13.counter").or_default() += 1;
             t.extra.insert("dead_letter_count_delta".into(), d);
             let fl = t.failures;
